@@ -612,11 +612,13 @@ func (c *Config) unmarshalPack() error {
 	if window == "" {
 		c.Pack.Window = DefaultPackWindow
 	} else {
-		winUint, err := strconv.ParseUint(window, 10, 32)
-		if err != nil {
-			return err
+		// Parsed like Git's integer settings: 0x/0 base prefixes and the
+		// k/m/g unit suffixes are accepted ("010" is 8, "1k" is 1024).
+		win, ok := parseGitInt(window)
+		if !ok || win < 0 {
+			return fmt.Errorf("invalid pack.window value %q", window)
 		}
-		c.Pack.Window = uint(winUint)
+		c.Pack.Window = uint(win)
 	}
 
 	c.Pack.ReadReverseIndex = optionBool(s.Options, readReverseIndexKey, true)
